@@ -118,6 +118,38 @@ def run_twin_case(prog, params):
             t = build_pair(sr, u, config, state, pend=pend)
             tcls = target_class(t, v)
             key = 'sync_vs_async|%s|%s|%s%s' % (config, op, tcls, ('|dst=' + target_class(t, dst)) if dst else '')
+            if op in ('create_hold', 'append_hold'):
+                # a write handle is held open while the path is observed, then written, flushed and dropped
+                sr.syms['wdata'] = sym_content(ex, 1, 'wdata')
+                res_ = {}
+                for pfx in ('S_', 'A_'):
+                    hn = 'hh' + pfx
+                    seq = ['hopen %s %s%s %s' % (hn, pfx, v, 'create' if op == 'create_hold' else 'append'), 'metadata %s%s' % (pfx, v), 'read %s%s 3' % (pfx, v),
+                           'hwrite %s $wdata' % hn, 'hflush %s' % hn, 'read %s%s 3' % (pfx, v), 'hdrop %s' % hn]
+                    outs_ = []
+                    opened = False
+                    for ln in seq:
+                        if ln.split()[0] in ('hwrite', 'hflush', 'hdrop') and not opened:
+                            continue
+                        sr.do(ln)
+                        if ln.startswith('hopen'):
+                            opened = sr.last.ok
+                        outs_.append((ln.split()[0], sr.last))
+                    res_[pfx] = outs_
+                if len(res_['S_']) != len(res_['A_']):
+                    findings.append(make_finding(prop, key + '|open_handle:success_differs', '%s on %s succeeds on one API only' % (op, v), sr, profile='async'))
+                else:
+                    for (n1, o1), (n2, o2) in zip(res_['S_'], res_['A_']):
+                        if o1.tag in ('panic', 'deadlock') or o2.tag in ('panic', 'deadlock'):
+                            findings.append(make_finding('C13', key + '|open_handle:panic:%s' % n1, '%s panics while a handle is held' % n1, sr, profile='async'))
+                            break
+                        mres = match(canon(o1), canon(o2))
+                        if mres is False or (mres is not True and ex.check(mres, 'held') is not None):
+                            findings.append(make_finding(prop, key + '|open_handle:%s_differs' % n1,
+                                                         'while a %s handle on %s is open, %s returns %s on the sync API and %s on the async API' % (op.split('_')[0], v, n1, o1.brief(), o2.brief()), sr, profile='async'))
+                            break
+                compare_snaps(sr, u, key, findings, prop)
+                return findings
             outs = []
             for pfx in ('S_', 'A_'):
                 if dst is not None:
